@@ -13,6 +13,8 @@ package main
 import (
 	"bytes"
 	"context"
+	"crypto/sha256"
+	"errors"
 	"fmt"
 	"net"
 	"reflect"
@@ -207,7 +209,13 @@ func exec(op string) vlib.Res {
 	case "msg clone":
 		return execClone()
 	case "msg write":
-		return execWrite()
+		return execWrite(f)
+	case "msg fingerprint":
+		return execFingerprint()
+	case "cache view":
+		return execCacheView(f[2])
+	case "lib room":
+		return execLibRoom()
 	case "msg cache":
 		return execCache()
 	case "msg cachepair":
@@ -478,20 +486,42 @@ func execClone() vlib.Res {
 // capWriter is a transport that keeps what was written to it.
 type capWriter struct {
 	*mock.Writer
-	raw    []byte
-	writes int
-	msgs   int
+	raw      []byte
+	writes   int
+	msgs     int
+	released bool // the buffer handed to Write was already back in the pool
+	fail     bool
 }
 
+// Write is what an owned transport does with a reply, with the rest of the
+// server going on around it: before the bytes are copied out, another request
+// packs its own reply through the pool and every resting buffer gets
+// overwritten. Bytes that are still borrowed do not care.
 func (w *capWriter) Write(b []byte) (int, error) {
 	w.writes++
+	if wire.VerifBufferPooled(b, 6) {
+		w.released = true
+	}
+	other := new(dns.Msg)
+	other.SetQuestion("another.request.example.", dns.TypeMX)
+	other.Id = 0x5A5A
+	other.Response = true
+	other.Answer = []dns.RR{&dns.MX{Hdr: dns.RR_Header{Name: "another.request.example.", Rrtype: dns.TypeMX, Class: dns.ClassINET, Ttl: 9}, Preference: 1, Mx: "mx.another.request.example."}}
+	_, _ = wire.PackClone(other)
+	wire.VerifPoisonPool(4, sentinel)
 	w.raw = append([]byte(nil), b...)
+	if w.fail {
+		return 0, errConsumer
+	}
 	return len(b), nil
 }
 func (w *capWriter) WriteMsg(m *dns.Msg) error {
 	w.msgs++
 	o := capture(m.Pack)
 	w.raw = o.b
+	if o.kind == "panic" {
+		panic(o.msg)
+	}
 	if o.kind != "ok" {
 		return fmt.Errorf("%s", o.msg)
 	}
@@ -500,39 +530,138 @@ func (w *capWriter) WriteMsg(m *dns.Msg) error {
 
 var chain = middleware.NewChain(nil)
 
-// the reply path: responseWriter.WriteMsg on a chain that declared AllowDirectPack.
-func execWrite() vlib.Res {
-	if cur == nil {
+// the reply path: responseWriter.WriteMsg. `msg write <directPack> <internal> lib=<outcome>`
+func execWrite(f []string) vlib.Res {
+	if cur == nil || len(f) < 5 {
 		return vlib.Res{Impl: "bad-op"}
 	}
+	dp, internal := f[2] == "t", f[3] == "t"
 	under, ref, pristine := rebuild(), rebuild(), rebuild()
-	if !under.pure {
-		return vlib.Res{Impl: "skipped"}
-	}
 	want := libPack(ref.m)
-	w := &capWriter{Writer: mock.NewWriter("udp", "192.0.2.7:5353")}
+	if f[4] != "lib="+want.String() {
+		return vlib.Res{Impl: "stale-args", Oracle: "FAIL sig=harness/write-args-do-not-describe-the-message lib=" + want.String()}
+	}
+	addr := "192.0.2.7:5353"
+	if internal {
+		addr = "127.0.0.255:0"
+	}
+	w := &capWriter{Writer: mock.NewWriter(vlib.Pick(vlib.NewR(curSeed), []string{"udp", "tcp"}), addr)}
 	req := new(dns.Msg)
 	req.SetQuestion("write.example.", dns.TypeA)
 	chain.Reset(w, req)
-	chain.AllowDirectPack()
+	if dp {
+		chain.AllowDirectPack()
+	}
 	got := capture(func() ([]byte, error) {
 		err := chain.Writer.WriteMsg(under.m)
 		return w.raw, err
 	})
 	or := "ok"
 	switch {
-	case want.kind == "ok" && (got.kind != "ok" || !bytes.Equal(got.b, want.b)):
+	case !same(got, want):
 		or = fmt.Sprintf("FAIL sig=write/reply-differs-from-library got=%s want=%s", got, want)
-	case w.writes+w.msgs > 1:
-		or = "FAIL sig=write/two-replies"
-	case !unchanged(under.m, pristine.m) && w.writes == 1:
+	case w.writes+w.msgs != 1 && got.kind != "panic":
+		or = fmt.Sprintf("FAIL sig=write/not-exactly-one-reply writes=%d msgs=%d", w.writes, w.msgs)
+	case w.released:
+		or = "FAIL sig=write/transport-given-a-buffer-already-back-in-the-pool"
+	case w.writes == 1 && (!dp || internal):
+		or = "FAIL sig=write/raw-bytes-to-an-undeclared-or-internal-writer"
+	case !unchanged(under.m, pristine.m) && w.writes == 1: // on the library path the TRANSPORT packs (and the library writes its OPT)
 		or = "FAIL sig=write/message-mutated/" + mutationClass(under.m, pristine.m)
+	case got.kind != "panic" && chain.Writer.Msg() != under.m:
+		or = "FAIL sig=write/msg-identity-lost"
 	}
+	impl := "lib:" + got.String()
 	path := "lib"
 	if w.writes == 1 {
 		path = "direct"
+		impl = fmt.Sprintf("direct:%s size=%d", got, middleware.ResponseSize(chain.Writer))
 	}
-	return vlib.Res{Impl: path + ":" + got.String(), Oracle: or, Tags: "nt," + path}
+	return vlib.Res{Impl: impl, Oracle: or, Tags: "nt," + path + ",w-" + w.Proto()}
+}
+
+// the negative-proof seal: validatedNegativeProofFingerprint hashes the packed
+// {Rcode, Ns} of a proof inside the pooled buffer.
+func execFingerprint() vlib.Res {
+	if cur == nil {
+		return vlib.Res{Impl: "bad-op"}
+	}
+	under, ref, pristine := rebuild(), rebuild(), rebuild()
+	sealed := new(dns.Msg)
+	sealed.Rcode = ref.m.Rcode
+	sealed.Ns = ref.m.Ns
+	want := libPack(sealed)
+	var sum [32]byte
+	ok := false
+	got := capture(func() ([]byte, error) {
+		sum, ok = middleware.VerifC15ProofFingerprint(under.m)
+		if !ok {
+			return nil, errors.New("no-fingerprint")
+		}
+		return sum[:], nil
+	})
+	if want.kind == "ok" {
+		h := sha256.Sum256(want.b)
+		want.b = h[:]
+	} else if want.kind == "err" {
+		want.msg = "no-fingerprint"
+	}
+	or := "ok"
+	switch {
+	case !same(got, want):
+		or = fmt.Sprintf("FAIL sig=fingerprint/not-the-hash-of-the-library-encoding got=%s want=%s", got.kind, want.kind)
+	case got.kind != "panic" && !unchanged(under.m, pristine.m):
+		or = "FAIL sig=fingerprint/message-mutated/" + mutationClass(under.m, pristine.m)
+	}
+	return vlib.Res{Impl: got.kind, Oracle: or, Tags: "nt,fingerprint"}
+}
+
+// `cache view <kinds>`: what admission keeps of an additional section.
+func execCacheView(kinds string) vlib.Res {
+	mk := func() *dns.Msg {
+		m := new(dns.Msg)
+		m.SetQuestion("view.example.", dns.TypeA)
+		m.Id = 3
+		m.Response = true
+		if kinds != "-" {
+			for i, k := range strings.Split(kinds, ",") {
+				var rr dns.RR
+				if k == "e" {
+					o := optRec(0x8000)
+					o.Option = []dns.EDNS0{&dns.EDNS0_EDE{InfoCode: 7, ExtraText: "x"}}
+					rr = o
+				} else {
+					rr = kindRR(k)
+				}
+				if a, ok := rr.(*dns.A); ok && k == "a" {
+					a.Hdr.Name = fmt.Sprintf("a%d.view.example.", i)
+				}
+				m.Extra = append(m.Extra, rr)
+			}
+		}
+		return m
+	}
+	under, ref, pristine := mk(), mk(), mk()
+	want := libPack(storableView(ref))
+	got := admit(under, true)
+	impl := "not-admitted"
+	switch got.kind {
+	case "panic":
+		impl = "panic"
+	case "ok":
+		impl = fmt.Sprintf("ar=%d compress=t", int(got.b[10])<<8|int(got.b[11]))
+	}
+	if want.kind == "err" {
+		want.msg = "not-admitted"
+	}
+	or := "ok"
+	switch {
+	case !same(got, want):
+		or = fmt.Sprintf("FAIL sig=cache/stored-bytes-are-not-the-storable-view/view got=%s want=%s", got, want)
+	case got.kind != "panic" && !unchanged(under, pristine):
+		or = "FAIL sig=cache/message-mutated/" + mutationClass(under, pristine)
+	}
+	return vlib.Res{Impl: impl, Oracle: or, Tags: "nt,cache"}
 }
 
 // storableView is what cache admission documents it stores: header,
@@ -827,6 +956,26 @@ func gen(r *vlib.R, n int, tier string, emit func(string)) {
 		}
 		e("opt select " + strings.Join(ks, ","))
 	}
+	// what admission keeps of an additional section: every shape of up to 3 (thorough 4) records
+	vk := []string{"n", "a", "o", "w", "x", "e"}
+	var recv func(prefix []string)
+	vmax := 3
+	if tier == "thorough" {
+		vmax = 4
+	}
+	e("cache view -")
+	recv = func(prefix []string) {
+		if len(prefix) > 0 {
+			e("cache view " + strings.Join(prefix, ","))
+		}
+		if len(prefix) == vmax {
+			return
+		}
+		for _, k := range vk {
+			recv(append(append([]string(nil), prefix...), k))
+		}
+	}
+	recv(nil)
 	// extended rcode rewrite: boundary TTLs x boundary rcodes, then random
 	ttls := []uint32{0, 0x8000, 0x00FFFFFF, 0x01000000, 0xFF000000, 0xFFFFFFFF, 0xAB008000, 0x00010000}
 	for _, t := range ttls {
@@ -848,8 +997,21 @@ func gen(r *vlib.R, n int, tier string, emit func(string)) {
 		e("msg decide " + describe(b))
 		e("msg pack")
 		e("msg clone")
-		if r.Chance(1, 3) {
-			e("msg write")
+		if r.Chance(1, 2) {
+			dp, in := "t", "f"
+			switch r.Intn(8) {
+			case 0:
+				dp = "f"
+			case 1:
+				in = "t"
+			}
+			e(fmt.Sprintf("msg write %s %s lib=%s", dp, in, libPack(build(seed, p).m)))
+		}
+		if r.Chance(1, 5) {
+			e("msg fingerprint")
+		}
+		if r.Chance(1, 4) {
+			e("lib room")
 		}
 		if r.Chance(1, 2) {
 			e("msg cache")
@@ -903,7 +1065,13 @@ func facts() map[string]any {
 		}
 	}
 	own := ownFacts()
+	lf := libFacts()
 	return map[string]any{
+		"write_while_borrowed":           writeWhileBorrowed(),
+		"lib_mono_violations":            lf[0],
+		"lib_hroom_violations":           lf[1],
+		"lib_sample_records":             lf[2],
+		"lib_sample_messages":            lf[3],
 		"puts_after_ok":                  own["puts_after_ok"],
 		"puts_after_err":                 own["puts_after_err"],
 		"puts_after_panic":               own["puts_after_panic"],
